@@ -180,6 +180,7 @@ type c17Op struct {
 	Mine    bool   `json:"mine"`     // recv: sender is this node
 	N       int    `json:"n"`        // advance: by how many heights (1..3)
 	ReentAt int    `json:"reent_at"` // advance: the handler of the new height advances by 1 again from inside its ReentAt-th delivery (0 = never)
+	ViewAt  int    `json:"view_at"`  // advance: the handler of the new height moves the VIEW forward from inside its ViewAt-th delivery (a cached NEW_VIEW / election quorum does that)
 }
 
 type c17Case struct {
@@ -196,6 +197,7 @@ type c17Handler struct {
 	w      *c17World
 	count  int
 	reent  int
+	viewAt int
 }
 
 type c17World struct {
@@ -206,6 +208,7 @@ type c17World struct {
 	me         primitives.MemberId
 	viol       *ev.Violation
 	reentered  bool
+	viewMoved  bool
 	recvs      []c17Recv
 	startedAt  map[uint64]int // height -> number of messages received before the node started that height
 	cutAfter   map[uint64]int // height -> tag of the delivery that ended it from within (re-entrant advance)
@@ -216,6 +219,11 @@ func (h *c17Handler) HandleConsensusMessage(m interfaces.ConsensusMessage) error
 	tag := w.tags[string(m.Raw())]
 	w.deliveries = append(w.deliveries, c17Delivery{tag: tag, handlerHeight: h.height})
 	h.count++
+	if h.viewAt > 0 && h.count == h.viewAt {
+		// what a cached NEW_VIEW (or the vote that completes this node's election) does from inside a cache drain: same height, next view
+		w.viewMoved = true
+		w.st.SetView(w.st.View() + 1)
+	}
 	if h.reent > 0 && h.count == h.reent {
 		// what commit -> onNewConsensusRound does from inside a cache drain
 		w.reentered = true
@@ -223,17 +231,17 @@ func (h *c17Handler) HandleConsensusMessage(m interfaces.ConsensusMessage) error
 			w.cutAfter = map[uint64]int{}
 		}
 		w.cutAfter[h.height] = tag // this delivery ended height h.height: later-received messages of that height are from the past now
-		w.advanceTo(h.height+1, 0)
+		w.advanceTo(h.height+1, 0, 0)
 	}
 	return nil
 }
 
-func (w *c17World) advanceTo(height uint64, reent int) {
+func (w *c17World) advanceTo(height uint64, reent int, viewAt int) {
 	if _, err := w.st.SetHeightAndResetView(primitives.BlockHeight(height)); err != nil {
 		return
 	}
 	w.startedAt[height] = len(w.recvs)
-	w.filter.ConsumeCacheMessages(&c17Handler{height: height, w: w, reent: reent})
+	w.filter.ConsumeCacheMessages(&c17Handler{height: height, w: w, reent: reent, viewAt: viewAt})
 }
 
 type c17Recv struct {
@@ -257,7 +265,7 @@ func runC17(c c17Case) (*ev.Violation, bool) {
 	w := &c17World{st: st, tags: map[string]int{}, me: me, startedAt: map[uint64]int{}}
 	w.filter = rawmessagesfilter.NewConsensusMessageFilter(sim.Instance, me, L.NewLhLogger(cfg, st), st)
 	cur := uint64(3)
-	w.advanceTo(cur, 0)
+	w.advanceTo(cur, 0, 0)
 	tag := 0
 	for _, op := range c.Ops {
 		cur = uint64(st.Height())
@@ -286,7 +294,7 @@ func runC17(c c17Case) (*ev.Violation, bool) {
 			if n < 1 {
 				n = 1
 			}
-			w.advanceTo(before+uint64(n), op.ReentAt)
+			w.advanceTo(before+uint64(n), op.ReentAt, op.ViewAt)
 		}
 	}
 	// ---- oracle
@@ -353,7 +361,8 @@ func TestC17Exhaustive(t *testing.T) {
 		alphabet = append(alphabet, c17Op{K: "recv", DH: dh})
 	}
 	alphabet = append(alphabet, c17Op{K: "recv", DH: 1, Other: true}, c17Op{K: "recv", DH: 1, Mine: true}, c17Op{K: "recv", DH: 0, Mine: true})
-	alphabet = append(alphabet, c17Op{K: "advance", N: 1}, c17Op{K: "advance", N: 2}, c17Op{K: "advance", N: 1, ReentAt: 1}, c17Op{K: "advance", N: 1, ReentAt: 2})
+	alphabet = append(alphabet, c17Op{K: "advance", N: 1}, c17Op{K: "advance", N: 2}, c17Op{K: "advance", N: 1, ReentAt: 1}, c17Op{K: "advance", N: 1, ReentAt: 2},
+		c17Op{K: "advance", N: 1, ViewAt: 1}, c17Op{K: "advance", N: 1, ViewAt: 2})
 	depth := 5
 	if ev.Thorough() {
 		depth = 6
@@ -382,7 +391,7 @@ func TestC17Exhaustive(t *testing.T) {
 	col.Cases(count)
 	col.NonTrivial(fmt.Sprintf("exhaustive-depth-%d", depth))
 	col.NonTrivial("exhaustive-filter")
-	col.Exhaust(fmt.Sprintf("filter: all sequences of length %d over a 12-letter alphabet (recv at cur-1..cur+3, other instance, own message, advance 1/2, re-entrant advance)", depth), count)
+	col.Exhaust(fmt.Sprintf("filter: all sequences of length %d over a 14-letter alphabet (recv at cur-1..cur+3, other instance, own message, advance 1/2, re-entrant advance, view moved during the drain)", depth), count)
 }
 
 func TestC17Random(t *testing.T) {
@@ -395,6 +404,9 @@ func TestC17Random(t *testing.T) {
 				op := c17Op{K: "advance", N: rapid.IntRange(1, 3).Draw(t, "n")}
 				if rapid.IntRange(0, 2).Draw(t, "reent") == 0 {
 					op.ReentAt = rapid.IntRange(1, 3).Draw(t, "reentat")
+				}
+				if rapid.IntRange(0, 2).Draw(t, "viewat?") == 0 {
+					op.ViewAt = rapid.IntRange(1, 3).Draw(t, "viewat")
 				}
 				c.Ops = append(c.Ops, op)
 			} else {
